@@ -292,13 +292,22 @@ Definition run_same (tabf : N -> bytes) (ref : list obs) (r : run) : bool :=
   end.
 
 (** ---- the signature of known finding 1 ---- *)
-(* some MemSet-only update before position i (1-based) that no Commit before i refers to *)
+(* some MemSet-only update before position i (1-based) whose pending tree is not committed before i
+   (no Commit of it, or a Rollback of it first) *)
+(* what first happens to the pending tree of operation [idx]: true = it is committed *)
+Fixpoint first_commits (l : list uop) (idx : N) : bool :=
+  match l with
+  | [] => false
+  | UCommit n :: tl => if (n =? idx)%N then true else first_commits tl idx
+  | URollback n :: tl => if (n =? idx)%N then false else first_commits tl idx
+  | _ :: tl => first_commits tl idx
+  end.
+
 Fixpoint uncommitted_go (l : list uop) (idx : N) : bool :=
   match l with
   | [] => false
   | UUpd _ _ (_ :: _) false :: tl =>
-      negb (existsb (fun o => match o with UCommit n => (n =? idx)%N | _ => false end) tl)
-      || uncommitted_go tl (idx + 1)%N
+      negb (first_commits tl idx) || uncommitted_go tl (idx + 1)%N
   | _ :: tl => uncommitted_go tl (idx + 1)%N
   end.
 
